@@ -29,20 +29,23 @@ theorem coarse_sound (T : CharTable) (hT : Consistent T) (E : List Char) (hE : E
 
 /-- **Batch extraction is sound**: no internal assertion fails, and every cleaned example is matched
     by one of the patterns (with the optional-whitespace wrap once any example needed stripping), for every option combination (strip, empties, variable-length fragments,
-    extra letters). -/
-theorem batch_extract_sound (T : CharTable) (hT : Consistent T) (o : Opts) (cl : Cleaned) :
+    extra letters). `hsz`: the cap on remembered strings per group is at least 1 (rexpy's default
+    is 10; with 0 the single-string test of refine_fragments would misfire). -/
+theorem batch_extract_sound (T : CharTable) (hT : Consistent T) (o : Opts)
+    (hsz : 1 ≤ o.sizes.maxStringsInGroup) (cl : Cleaned) :
     ∃ ps E, batchExtract T o cl = some (ps, E) ∧
       ∀ s ∈ cl.strings, ∃ p ∈ ps, Matches T E (wrapWs (decide (cl.nStripped > 0)) p) s :=
-  Lemmas.batch_extract_sound T hT o cl
+  Lemmas.batch_extract_sound T hT o hsz cl
 
 /-- **Extraction is sound**: with no pruning option, every supplied example that an explicit option
     does not discard — as supplied, before stripping — is matched by one of the returned patterns
     (with the optional-whitespace wrap when stripping changed something). -/
 theorem extract_sound (T : CharTable) (hT : Consistent T) (o : Opts)
+    (hsz : 1 ≤ o.sizes.maxStringsInGroup)
     (hprune : o.maxPatterns = none ∧ o.minStrings ≤ 1) (items : List (Option Line × Nat)) :
     ∃ ps E w, extract T o items = some (ps, E, w) ∧
       ∀ s ∈ keptExamples o items, ∃ p ∈ ps, Matches T E (wrapWs w p) s :=
-  Lemmas.extract_sound T hT o hprune items
+  Lemmas.extract_sound T hT o hsz hprune items
 
 /- non-vacuity -/
 example : Consistent { w := fun c => asciiUpper c || asciiLower c || asciiDigit c || c == '_',
